@@ -80,6 +80,54 @@ func init() {
 		}
 		return mk("c04-flat", seeds, cfgs(tier), n, 2, flatAlphabet([]string{"a", "b", "L1"}, []string{"s", "X"}, true), boundaryC04)
 	}
+	// S4: argument and state errors - empty / oversized / maximal keys, empty bucket names, operations on a closed
+	// transaction, write attempts through a read transaction; each must return the documented error and change nothing
+	hx.Registry["c04-errors"] = func(tier string) []*hx.Scope {
+		en := func(x *apix.Exec, t *hx.Track, left int) []apix.Op {
+			if left <= 0 {
+				return nil
+			}
+			var ops []apix.Op
+			if x.Readers[0] == nil {
+				ops = append(ops, apix.Op{K: "beginR", N: 0})
+			} else {
+				pp := P("p")
+				ops = append(ops, apix.Op{K: "closeR", N: 0}, apix.Op{K: "rput", N: 0, P: pp, Key: "a"}, apix.Op{K: "rdel", N: 0, P: pp, Key: "a"},
+					apix.Op{K: "rmkb", N: 0, Key: "n"}, apix.Op{K: "rdelb", N: 0, Key: "p"}, apix.Op{K: "rseq", N: 0, P: pp})
+			}
+			ops = append(ops, apix.Op{K: "deadput"}, apix.Op{K: "deadmkb"}, apix.Op{K: "deadcommit"}, apix.Op{K: "deadrollback"})
+			if x.W == nil {
+				if left >= 2 {
+					ops = append(ops, beginW)
+				}
+				return ops
+			}
+			ops = append(ops, txEnd()...)
+			if left == 1 {
+				return txEnd()
+			}
+			pp := P("p")
+			if x.WM.Resolve(pp) == nil {
+				return append(ops, op("mkb", nil, "p", ""), op("mkb", nil, "EMPTY", ""), op("mkbi", nil, "EMPTY", ""), op("delb", nil, "EMPTY", ""))
+			}
+			for _, k := range []string{"EMPTY", "HUGE", "MAXK", "a"} {
+				ops = append(ops, op("put", pp, k, "s"))
+			}
+			for _, k := range []string{"EMPTY", "a"} {
+				ops = append(ops, op("del", pp, k, ""), op("get", pp, k, ""))
+			}
+			ops = append(ops, op("mkb", pp, "EMPTY", ""), op("mkb", pp, "a", ""), op("mkbi", pp, "a", ""), op("delb", pp, "a", ""), op("delb", pp, "EMPTY", ""),
+				op("cdel", pp, "a", ""), op("mkb", nil, "p", ""), apix.Op{K: "mvb", Key: "p", D: []string{"p"}}, apix.Op{K: "mvb", P: pp, Key: "a"}, apix.Op{K: "mvb", Key: "nope", D: []string{"p"}})
+			return ops
+		}
+		n := 4
+		if tier == "thorough" {
+			n = 5
+		}
+		cs := cfgs(tier)[:1]
+		cs[0].InitialMmapSize = 1 << 20 // a reader shares the goroutine with the writer: no commit may have to remap
+		return mk("c04-errors", []string{"empty", "inline"}, cs, n, 2, en, boundaryC04)
+	}
 	hx.Registry["c04-nested"] = func(tier string) []*hx.Scope {
 		n, depth := 5, 2
 		seeds := []string{"empty", "nested"}
@@ -93,7 +141,7 @@ func init() {
 // C04 runs the nested-ordered-map conformance check.
 func C04(tier string) int {
 	return RunHX(HXCheck{
-		Prop: "C04", Level: "model_checking", Scopes: []string{"c04-flat", "c04-nested"},
+		Prop: "C04", Level: "model_checking", Scopes: []string{"c04-flat", "c04-errors", "c04-nested"},
 		Rule: "breadth-first enumeration of all API programs within the operation bound from each seed state and configuration; every transition is executed by the real code and compared with the reference model (return values, errors, full dump inside the write tx after every op, full dump forwards and backwards + key counts through a fresh read tx at every tx boundary); states are distinct exact state keys (file bytes + in-memory freelist, or begin-key + effective op list inside a write tx)",
 		Assumptions: []string{"reference model refmodel implements the documented API contract (DESIGN.md appendix A)",
 			"keys from a small colliding alphabet incl. one key of pageSize/3 bytes; values of classes empty/8 bytes/0.3 page/2.5 pages",
